@@ -30,8 +30,8 @@ CASE_TIMEOUT = 60
 
 def budget(tier):
     if tier == "quick":
-        return {"cases": 6000, "workers": 8, "watchdog_s": 1200}
-    return {"cases": 400000, "workers": 16, "watchdog_s": 5400}
+        return {"cases": 40000, "workers": 8, "watchdog_s": 1800}
+    return {"cases": 1600000, "workers": 16, "watchdog_s": 3600, "budget_s": 600}
 
 
 def gen_case(rng, tier):
